@@ -31,6 +31,9 @@ Inductive kind :=
 | StopCall          (* x.Stop()    — only in functions listed with +calls *)
 | CloseChan         (* close(ch)   — only in functions listed with +calls *)
 | MakeChan          (* make(chan T[, n]): not a blocking site; capacity claims refer to it *)
+| Panic             (* panic(x), x mentions no error value *)
+| PanicOnErr        (* panic(x), x mentions an error value (WaitOn names the identifiers) *)
+| ErrReturn         (* return ..., e with e not nil — only in functions listed with +returns *)
 | MissingFunction.  (* a listed function that the source no longer has *)
 
 (* g_fn: "file.go:Receiver.Function"; g_ord: position among the function's
@@ -61,6 +64,7 @@ Definition kind_id (k : kind) : nat :=
   | Select => 0 | SelectDefault => 1 | BareSend => 2 | BareRecv => 3 | TimerRecv => 4
   | RangeChan => 5 | WaitGroupWait => 6 | CondWait => 7 | OtherWait => 8 | Sleep => 9
   | StopCall => 10 | CloseChan => 11 | MissingFunction => 12 | MakeChan => 13
+  | Panic => 14 | PanicOnErr => 15 | ErrReturn => 16
   end.
 
 Definition kind_eqb (a b : kind) : bool := Nat.eqb (kind_id a) (kind_id b).
@@ -101,7 +105,9 @@ Fixpoint list_eqb {A} (eqb : A -> A -> bool) (a b : list A) : bool :=
    as (nesting, kind, alternatives) *)
 Definition sites_of_fn (fn : string) (tbl : list gsite) : list (string * kind * list alt) :=
   map (fun g => (g_ctx g, g_kind g, g_alts g))
-      (filter (fun g => String.eqb fn (g_fn g) && negb (kind_eqb (g_kind g) MakeChan)) tbl).
+      (filter (fun g => String.eqb fn (g_fn g) && negb (kind_eqb (g_kind g) MakeChan)
+                        && negb (kind_eqb (g_kind g) Panic) && negb (kind_eqb (g_kind g) PanicOnErr)
+                        && negb (kind_eqb (g_kind g) ErrReturn)) tbl).
 
 (* how many channels a function creates under a given name, whatever the capacity *)
 Definition made_count (fn name : string) (tbl : list gsite) : nat :=
